@@ -1,20 +1,24 @@
+\* The 'nest' slice of the bounded family (include / subninja trees); tools/checks_c17.py generates one such
+\* configuration per slice (SLICES_QUICK / SLICES_THOROUGH) and per simulation run (random sub-alphabets of FULL).
+\*   tlc -workers 4 -config NinjaEval.cfg NinjaEval.tla          (exhaustive)
+\*   tlc -simulate num=100 -depth 10 -seed 1 -config NinjaEval_full.cfg NinjaEval.tla
 CONSTANTS
   MaxStmts = 5
   MaxBinds = 2
   MaxRules = 1
-  MaxBuilds = 2
-  MaxNest = 1
+  MaxBuilds = 1
+  MaxNest = 2
   MaxMisc = 0
-  FBSel = {1, 3}
+  FBSel = {1,2}
   RCSel = {2}
   RDSel = {1}
   RESel = {1}
   RNSel = {1}
-  BBSel = {1, 2}
+  BBSel = {1}
   OutSel = {1}
   InSel = {2}
   BRSel = {1}
-  NestKinds = {"include", "subninja"}
+  NestKinds = {"include","subninja"}
   EmitAll = FALSE
 INIT Init
 NEXT Next
